@@ -138,6 +138,23 @@ fn check_sort(ls: &[L]) -> CaseResult {
     let set: BTreeSet<Label> = ls.iter().map(|l| l.to_label()).collect();
     let distinct: BTreeSet<Vec<u8>> = ls.iter().map(|l| l.enc()).collect();
     ensure!(set.len() == distinct.len(), "BTreeSet<Label> holds {} elements for {} distinct labels", set.len(), distinct.len());
+    // the crate's own use of the two orders for sorting map keys: the distinct labels as the extra
+    // parameters of a key, canonicalised under either ordering
+    let mut uniq: Vec<Label> = vec![];
+    for l in ls {
+        let l = l.to_label();
+        if !uniq.contains(&l) && !matches!(l, Label::Int(0..=5)) {
+            uniq.push(l);
+        }
+    }
+    for (o, name) in [(coset::CborOrdering::Lexicographic, "bytewise"), (coset::CborOrdering::LengthFirstLexicographic, "length-first")] {
+        let mut k = coset::CoseKey { kty: coset::KeyType::Assigned(iana::KeyType::Symmetric), params: uniq.iter().map(|l| (l.clone(), coset::cbor::value::Value::Null)).collect(), ..Default::default() };
+        k.canonicalize(o);
+        let mut want: Vec<Vec<u8>> = uniq.iter().map(|l| l.clone().to_vec().unwrap_or_default()).collect();
+        want.sort_by(|a, b| if name == "bytewise" { cmp_lex(a, b) } else { cmp_len_first(a, b) });
+        let got: Vec<Vec<u8>> = k.params.iter().map(|(l, _)| l.clone().to_vec().unwrap_or_default()).collect();
+        ensure!(got == want, "CoseKey::canonicalize ({}) leaves {} extra parameters in an order other than the {} order of their encoded labels", name, uniq.len(), name);
+    }
     Ok(())
 }
 
@@ -444,7 +461,7 @@ fn case(g: &mut Gen, ctx: &mut Ctx) -> CaseResult {
             check_triple(&a, &b, &c, true)
         }
         2 => {
-            let n = 2 + g.below(14);
+            let n = if g.ratio(1, 6) { 30 + g.below(60) } else { 2 + g.below(14) };
             let mut ls: Vec<L> = (0..n).map(|_| gen_label(g)).collect();
             if g.ratio(1, 3) {
                 let (a, b) = g.text_pair();
